@@ -14,7 +14,11 @@ def slice? (s : Bytes) (a b : Int) : Option Bytes :=
   if 0 ≤ a ∧ a ≤ b ∧ b ≤ s.length then some ((s.drop a.toNat).take (b.toNat - a.toNat)) else none
 
 /-- decimal rendering of a natural number as bytes (`fmt.Sprintf("%d", n)` for n ≥ 0) -/
-def natDigits (n : Nat) : Bytes := (toString n).toUTF8.toList
+def natDigits (n : Nat) : Bytes :=
+  if h : n < 10 then [UInt8.ofNat (48 + n)]
+  else natDigits (n / 10) ++ [UInt8.ofNat (48 + n % 10)]
+termination_by n
+decreasing_by omega
 
 def spaces (n : Nat) : Bytes := List.replicate n 32
 
